@@ -753,9 +753,118 @@ def r8(ctx):
             ctx.bad(name, f'document:{cname}', f'`{doc}` is parsed into {shown}; DS9 defines {want}', raw.loc())
 
 
+# ---------------------------------------------------------------- grammar enumeration (thorough tier)
+# line kinds of a small DS9 grammar: (text, kind, payload) — the payload is what the line *means* (the oracle does not
+# parse text): frames give (name or None), global lines a dict, shape lines (sign-include, shape, params, own meta, has ||)
+G_LINES = [
+    ('image', 'frame', 'image'), ('fk5', 'frame', 'fk5'), ('GALACTIC', 'frame', 'galactic'),
+    ('physical', 'frame', None),
+    ('global color=red', 'global', {'color': 'red'}),
+    ('global width=2 color=blue include=1', 'global', {'width': 2, 'color': 'blue', 'include': 1}),
+    ('circle(1,2,3)', 'shape', (1, 'circle', '1,2,3', {}, False)),
+    ('-circle(1,2,3)', 'shape', (0, 'circle', '1,2,3', {}, False)),
+    ('+box(1,2,3,4,0) # color=cyan', 'shape', (1, 'box', '1,2,3,4,0', {'color': 'cyan'}, False)),
+    ('circle(4,5,6) # include=0 text={a;b}', 'shape', (1, 'circle', '4,5,6', {'include': 0, 'text': 'a;b'}, False)),
+    ('-circle(7,8,9) # include=1', 'shape', (0, 'circle', '7,8,9', {'include': 1}, False)),
+    ('panda(1,2,0,360,4,1,2,3)', 'unsupported', False),
+    ('# composite(1,2,0) || composite=1 width=5', 'composite', {'width': 5}),
+    ('circle(1,1,1) ||', 'shape', (1, 'circle', '1,1,1', {}, True)),
+    ('panda(1,2,0,360,4,1,2,3) ||', 'unsupported', True),
+    ('# text(1,2) text={Hi}', 'shape', (1, 'text', '1,2', {'text': 'Hi'}, False)),
+]
+
+
+def _g_oracle(seq):
+    """records DS9 defines for a sequence of grammar lines (frame state, global/composite/own precedence, sign)."""
+    frame, gmeta, cmeta, out = None, {}, {}, []
+    for text, kind, pay in seq:
+        if kind == 'frame':
+            frame = pay
+        elif kind == 'global':
+            gmeta.update(pay)
+        elif kind == 'composite':
+            if frame is not None:
+                cmeta = dict(pay)
+        elif kind == 'unsupported':
+            if not pay:
+                cmeta = {}
+        elif kind == 'shape':
+            inc, shape, params, own, cont = pay
+            if frame is None:
+                continue
+            meta = dict(gmeta)
+            meta.update(cmeta)
+            meta['include'] = inc
+            meta.update(own)
+            out.append((frame, 'pixel' if frame == 'image' else 'sky', shape, params, meta))
+            if not cont:
+                cmeta = {}
+    return out
+
+
+def r9(ctx):
+    """every document of up to three lines over a 16-line grammar (frames, unsupported frame, global lines, signed and
+    unsigned shapes with own properties, unsupported shapes, a composite header and members, the "# text(" form), joined by
+    newlines and by semicolons: the raw parser, partially evaluated on the document, must give the records an independent
+    state machine (frame persists / is cleared, global < composite < sign < own properties, a composite ends with its
+    last member) gives."""
+    import itertools
+    m = ctx.model
+    par, make, lexers, raw, rmod = ds9.reader_funcs(m)
+    ctx.need(raw is not None, 'ds9 read', 'raw parser not found')
+    name = raw.qualname.split(':')[1]
+
+    def plain(v):
+        if isinstance(v, Const):
+            return v.v
+        if is_num(v) and v.is_number:
+            return int(v) if float(v) == int(float(v)) else float(v)
+        if isinstance(v, Tup):
+            return [plain(i) for i in v.items]
+        return show(v, 80)
+    n = nbad = 0
+    first = None
+    for k in (1, 2, 3):
+        for seq in itertools.product(G_LINES, repeat=k):
+            # a global line after a semicolon-joined shape is fine; comments are not in the grammar (a comment runs to the
+            # end of the line, so joining by ';' would change the meaning)
+            for sep in ('\n', ';'):
+                if sep == ';' and any(t.startswith('#') for t, _, _ in seq[1:]):
+                    continue          # "# composite(" / "# text(" start a line
+                if sep == ';' and any(t.startswith('#') for t, _, _ in seq[:1]) and k > 1:
+                    continue
+                doc = sep.join(t for t, _, _ in seq)
+                want = _g_oracle(seq)
+                out = Evaluator(m).run(raw, [Const(doc)], {})
+                got = None
+                if len(out.returns) == 1 and isinstance(out.returns[0][1], Tup) and not out.raises:
+                    got = []
+                    for r in out.returns[0][1].items:
+                        if not isinstance(r, Obj):
+                            got = None
+                            break
+                        md = r.fields.get('raw_meta')
+                        mdd = {kk: plain(md.get(kk)) for kk in md.keys()} if isinstance(md, DictV) and not md.has_symbolic() else None
+                        got.append((plain(r.fields.get('frame')), plain(r.fields.get('region_type')), plain(r.fields.get('shape')),
+                                    plain(r.fields.get('shape_params')), mdd))
+                n += 1
+                if got is None or any(rec[4] is None for rec in got):
+                    raise AnalysisError('C10.R9', f'{name}: {doc!r}', 'raw parser not reducible on a grammar document')
+                if got != want:
+                    nbad += 1
+                    first = first or (doc, got, want)
+    if nbad:
+        doc, got, want = first
+        ctx.bad(name, 'grammar-documents', f'{nbad} of {n} grammar documents are read differently from what DS9 defines, e.g. '
+                f'{doc!r} gives {got}; DS9 defines {want}', raw.loc())
+    else:
+        ctx.ok(name, f'{n} grammar documents (<= 3 lines over {len(G_LINES)} line kinds, two separators) read as DS9 defines')
+
+
 RULES = [
     RuleDef('R7', 'shape line -> (parameter string, metadata string) on probe lines', r7, 1),
     RuleDef('R8', 'raw parser on probe documents: frame state/requirement, keyword partition, include, metadata, composite', r8, 40),
+    RuleDef('R9', 'grammar enumeration: all documents of <= 3 lines over a 16-line DS9 grammar against a state-machine oracle', r9, 1, tier='thorough'),
     RuleDef('R3', 'coordinate / size / angle lexing constants', r3, 5),
     RuleDef('R3b', 'angle/size lexer probes (one per branch and per number ending)', r3b, 1),
     RuleDef('R4', 'parameter templates per shape (symbolic parse), annulus expansion, frame names', r4, 27),
